@@ -505,6 +505,16 @@ pub fn check_cmd(tier: Tier) -> i32 {
             let stride = (p.total / 40).max(1);
             preps.push((p, stride));
         }
+        // names that are legal on this platform and look like something else to a careless
+        // conversion (a Windows separator, a URL scheme, an escape, non-ASCII letters)
+        for (k, odd) in ["we\\ird.jbk", "co:lon.jbk", "sp ace %41.jbk", "d\u{ed}a-\u{65e5}.jbk"].iter().enumerate() {
+            let mut p = preps[pi].0.clone();
+            p.out_name = odd.to_string();
+            p.may_refuse = true;
+            p.name = format!("{}-oddname{k}", p.name);
+            let stride = (p.total / 25).max(1);
+            preps.push((p, stride));
+        }
     }
     // rename failures: every output file other than the entry point x {fresh, pre-existing}
     let mut obstruct_runs = 0u64;
@@ -733,7 +743,7 @@ pub fn check_cmd(tier: Tier) -> i32 {
     }
     summary.extra.insert("specs".into(), serde_json::json!(preps.iter().map(|(p, stride)| format!("{}: {} bytes of write traffic in {} calls, final size {}, budget stride {}", p.name, p.total, p.bounds.len(), p.final_size, stride)).collect::<Vec<_>>()));
     summary.extra.insert("exhaustive".into(), serde_json::json!(false));
-    let rule = "enumeration of crash points: BasicCreator runs in a child process under an LD_PRELOAD shim that gives the process a byte budget over all writes to regular files of the destination directory (write/pwrite/writev/copy_file_range/sendfile): the call crossing the budget is shortened, the next one kills the process (SIGKILL) or fails with ENOSPC from then on. For each spec (tiny containers in the three packagings with every byte offset 0..total; larger ones with a stride plus every write-call boundary +-1) x {fresh destination, destination holding a previous complete container of other content} x {kill, ENOSPC}. Oracle on the destination directory after the child ended, however it ended: the entry point is absent (only if nothing was there before), byte-identical to the previous file, or opens with Container::new, check()==true and every entry and content equal to the model of the new spec (so every pack file it refers to is complete); with budget >= total the run must succeed. Non-trivial = budget strictly inside the write stream; distinct by (spec, pre-existing, mode, decile of the stream, destination state, how the child ended). Further scenarios: (retry after a crash) 48 crash points per spec, each followed by a fault-free creation of a smaller container at the same destination among whatever the first run left: it must succeed and read as its model; (long names) entry-point names of 150..250 bytes, where the recorded location of a pack living in its own file stops fitting a pack info: creation may refuse, leaving nothing / the previous file, and otherwise the entry point reaches every pack; (rename obstruction) a non-empty directory sits at the final path of an output file other than the entry point: the entry point must not appear as the new container; (unreadable input) every content of the main pack in turn is handed over as a file whose reads fail when the creator comes to it: creation must fail leaving nothing / the previous file, or (content already read) produce the complete container.";
+    let rule = "enumeration of crash points: BasicCreator runs in a child process under an LD_PRELOAD shim that gives the process a byte budget over all writes to regular files of the destination directory (write/pwrite/writev/copy_file_range/sendfile): the call crossing the budget is shortened, the next one kills the process (SIGKILL) or fails with ENOSPC from then on. For each spec (tiny containers in the three packagings with every byte offset 0..total; larger ones with a stride plus every write-call boundary +-1) x {fresh destination, destination holding a previous complete container of other content} x {kill, ENOSPC}. Oracle on the destination directory after the child ended, however it ended: the entry point is absent (only if nothing was there before), byte-identical to the previous file, or opens with Container::new, check()==true and every entry and content equal to the model of the new spec (so every pack file it refers to is complete); with budget >= total the run must succeed. Non-trivial = budget strictly inside the write stream; distinct by (spec, pre-existing, mode, decile of the stream, destination state, how the child ended). Further scenarios: (retry after a crash) 48 crash points per spec, each followed by a fault-free creation of a smaller container at the same destination among whatever the first run left: it must succeed and read as its model; (long and odd names) entry-point names of 150..250 bytes and names holding a backslash, a colon, a space and '%', non-ASCII letters; where the recorded location of a pack living in its own file stops fitting a pack info: creation may refuse, leaving nothing / the previous file, and otherwise the entry point reaches every pack; (rename obstruction) a non-empty directory sits at the final path of an output file other than the entry point: the entry point must not appear as the new container; (unreadable input) every content of the main pack in turn is handed over as a file whose reads fail when the creator comes to it: creation must fail leaving nothing / the previous file, or (content already read) produce the complete container.";
     write_evidence(id, "fault_enumeration", tier, seed, rule, vec!["crash = process termination or write error; the page cache survives (no power-loss claim)".into(), "failures of rename itself are not injected (rustix raw syscalls are invisible to the shim); killing at the adjacent writes yields the same destination states".into(), "leftover temporary files are allowed: the property speaks about the destination path".into()], t0, &summary);
     if !summary.violations.is_empty() {
         return 1;
